@@ -1,14 +1,23 @@
 #!/bin/bash
 # One-time setup after a fresh restore (offline): build /repo's working tree with sanitizers and
-# hooks, regenerate the Lean tables, build all Lean libraries and drivers.  Idempotent.
-set -e
+# hooks (ASan/UBSan build for all checks, TSan + ENABLE_SHARABLE_DEVICE build for C30), regenerate
+# the Lean tables, build all Lean libraries and drivers, then run every registered quick check
+# once (results ignored) so that harness binaries and JIT kernel caches are warm.  Idempotent.
 cd "$(dirname "$0")/.."
-tools/build_repo.sh asan >/dev/null
-for g in translate/gen_*.py; do python3 "$g" >/dev/null || echo "setup: $g failed (reported by the checks that depend on it)"; done
-cd lean
-lake build 2>&1 | tail -3 || true
-for d in $(grep -oP 'name = "\Kdrv_\w+' lakefile.toml); do
-  r=$(grep -A1 "name = \"$d\"" lakefile.toml | grep -oP 'root = "\K[\w.]+' | tr . /)
-  [ -f "$r.lean" ] && (lake build "$d" 2>&1 | tail -1 || true)
-done
+export VERIF_JOBS=${VERIF_JOBS:-16}
+tools/build_repo.sh asan >/dev/null || echo "setup: asan build failed"
+tools/build_repo.sh tsan >/dev/null || echo "setup: tsan build failed"
+for g in translate/gen_*.py; do python3 "$g" >/dev/null 2>&1 || echo "setup: $g failed (reported by the checks that depend on it)"; done
+( cd lean
+  lake build 2>&1 | tail -3
+  for d in $(grep -oP 'name = "\Kdrv_\w+' lakefile.toml); do
+    r=$(grep -A1 "name = \"$d\"" lakefile.toml | grep -oP 'root = "\K[\w.]+' | tr . /)
+    [ -f "$r.lean" ] && (lake build "$d" 2>&1 | tail -1)
+  done )
+if [ "${VERIF_SETUP_WARM:-1}" = "1" ]; then
+  ids=$(python3 -c "import json;print(' '.join(c['property_id'] for c in json.load(open('MANIFEST.json'))['checks']))")
+  mkdir -p .build/tmp
+  printf '%s\n' $ids | xargs -P 4 -I{} sh -c 'timeout 1500 python3 tools/check.py {} --tier quick > .build/tmp/warm_{}.log 2>&1; echo "warm {} rc=$?"'
+  rm -rf evidence/replays/*
+fi
 echo "setup done"
